@@ -169,6 +169,18 @@ def glob_size_limit_cases(prefix="z"):
     return [(f"{prefix}0", [hexs("?" * 12000), hexs("a" * 12000)]),
             (f"{prefix}1", [hexs("?" * 6000), hexs("a" * 6000), hexs("a" * 5999)])]
 
+def glob_nonutf8_cases(prefix="u"):
+    """members of the known-finding class non-utf8-path: a path field "!<hex>" is raw bytes"""
+    return [(f"{prefix}0", [hexs("*"), "!ff", "!61ff62", hexs("a")]),
+            (f"{prefix}1", [hexs(""), "!ff"]),                 # no pattern to try: no panic, no match
+            (f"{prefix}2", [hexs("\\x *"), "!c328"])]          # the invalid escape panics first
+
+def copyright_nonutf8_cases(prefix="v"):
+    H = "Format: " + FORMAT + "\n"
+    doc = H + "\nFiles: *\nCopyright: c\nLicense: MIT\n text\n\nFiles:\nCopyright: c\nLicense: X\n"
+    return [(f"{prefix}0", [hexs(doc), "2", "!ff", hexs("a"), hexs("MIT")]),
+            (f"{prefix}1", [hexs(H + "\nFiles:\nCopyright: c\nLicense: X\n"), "1", "!fffe"])]
+
 # ------------------------------------------------------------------ copyright stream
 FORMAT = "https://www.debian.org/doc/packaging-manuals/copyright-format/1.0/"
 LIC_NAMES = ["MIT", "GPL-3+", "Apache-2.0", "X", "BSD-3-clause", "GPL-2+ or MIT"]
